@@ -22,10 +22,13 @@ FAMILIES = {
     'datetime64[ns]': 'date', 'datetime64[us]': 'date', 'datetime64[ms]': 'date', 'datetime64[s]': 'date',
     'datetime-tz': 'date', 'object-date': 'date',
     'str': 'other',
+    # opt-in only (C05): the same instants, timezone-aware, at two resolutions
+    'datetime64[ns, UTC]': 'date', 'datetime64[us, UTC]': 'date',
 }
+OPT_IN = ('datetime64[ns, UTC]', 'datetime64[us, UTC]')
 NULLABLE = {'Int64', 'UInt8', 'float64', 'float32', 'Float64', 'boolean', 'object-bool', 'object-str', 'string',
             'category', 'category-unused', 'datetime64[ns]', 'datetime64[us]', 'datetime64[ms]', 'datetime64[s]', 'datetime-tz',
-            'object-date', 'str'}
+            'object-date', 'str', 'datetime64[ns, UTC]', 'datetime64[us, UTC]'}
 STR_POOL = ['a', 'b', 'abc', 'ab', 'AB', '', ' ', 'x y', 'abc\n', '#tag', 'ab1', 'l\u2028s', 'n\u0085l', 'p\u2029q',
             'NA', 'n/a', 'null', 'None', 'e\u0301', '\u212b', 'été', '日本', 'a1', '12', 'id-7', 'id-12', 'Zed', 'zed',
             "it's", 'q"t', 'back\\slash', 'line\nbreak', 'tab\t', 'é', 'ß', '٣', '²', 'a.b', '^-', 'foo', 'bar']
@@ -118,7 +121,7 @@ def gen_frame(rng, fams=None, maxrows=10, maxcols=3):
     if rng.random() < 0.08:
         n = rng.randint(21, 26)
     ncol = rng.randint(1, maxcols)
-    fams = fams or [f for f in FAMILIES]
+    fams = fams or [f for f in FAMILIES if f not in OPT_IN]
     sfams = [f for f in fams if FAMILIES[f] in ('string', 'other') and f != 'category-unused']
     codes = None
     if sfams and rng.random() < 0.05:
@@ -135,6 +138,10 @@ def gen_frame(rng, fams=None, maxrows=10, maxcols=3):
         pool = rng.choice([['id:', 'id:1', 'id:22', 'id:333'], ['ab-', 'ef-12', 'gh-7', 'xy-'], ['ID:7', 'ID:7 (old)', 'ID:8'],
                            ['AB-12', 'AB-12 x', 'CD-34']])
         cols[0] = {'name': cols[0]['name'], 'fam': fam, 'cells': [rng.choice(pool) for _ in range(n)]}
+    if sfams and not codes and rng.random() < 0.04 and n >= 2:
+        # quantities with superscripts (digits to str.isdigit, not to a regular expression's [0-9] or \d)
+        pool = rng.choice([['x²', 'y³', 'z²', 'w³'], ['12 m²', '7 cm²', '3 m³', '40 km²'], ['a¹', 'b²', 'c³'], ['m²', 'm³']])
+        cols[-1] = {'name': cols[-1]['name'], 'fam': rng.choice(sfams), 'cells': [rng.choice(pool) for _ in range(n)]}
     if codes:
         cells = codes + [rng.choice(codes + [None]) for _ in range(n - len(codes))]
         rng.shuffle(cells)
@@ -162,6 +169,8 @@ def to_series(col):
         return pd.Series(pd.Categorical([c for c in cells], categories=seen + ['unused-1', 'unused-2']))
     if fam == 'str':
         return pd.Series([np.nan if c is None else c for c in cells], dtype='str')
+    if fam in OPT_IN:
+        return pd.Series([pd.NaT if c is None else pd.Timestamp(c, tz='UTC') for c in cells], dtype='datetime64[ns, UTC]').astype(fam)
     if fam.startswith('datetime64'):
         return pd.Series([pd.NaT if c is None else pd.Timestamp(c) for c in cells]).astype(fam)
     if fam == 'datetime-tz':
